@@ -203,6 +203,28 @@ impl Property for C17 {
         vec!["all call sequences of length <=4 over {next, next_back, nth(0), nth(1), nth_back(1), nth(usize::MAX), nth_back(usize::MAX-rem)} x every n<=5 x 4 iterator sources x 4 terminals on Bvf<u8,1>, Bvd, Bv".into()]
     }
     fn enumerate(&self, _tier: Tier, sh: &mut Shard, f: &mut dyn FnMut(C17Case) -> bool) {
+        // long vectors: jumps to arbitrary interior positions followed by single steps
+        for t in [TID_D, TID_A, 18u8, 10u8] {
+            let c = fixed_cap(t).unwrap_or(usize::MAX);
+            for n in [65usize, 127, 129, 1025, 2560, 4097] {
+                if !sh.mine() {
+                    continue;
+                }
+                let n = n.min(c);
+                let a = crate::gen::long_values(n)[1].clone();
+                for f1 in [1000u16, 16384, 32768, 40000, 65000] {
+                    for f2 in [1000u16, 30000, 65000] {
+                        for src in 0..4usize {
+                            let calls = vec![Call::Nth(KSel::Frac(f1)), Call::Next, Call::Next, Call::NthBack(KSel::Frac(f2)), Call::NextBack, Call::Next, Call::Nth(KSel::Small(63)), Call::Next, Call::Nth(KSel::Small(64)), Call::Next, Call::SizeHint];
+                            let case = C17Case { a: Operand::canon(t, a.clone()), into_iter: src & 1 == 1, rev: src & 2 == 2, calls, term: TERMS[(f1 as usize + src) % 4] };
+                            if !f(case) {
+                                return;
+                            }
+                        }
+                    }
+                }
+            }
+        }
         let alpha = [Call::Next, Call::NextBack, Call::Nth(KSel::Small(0)), Call::Nth(KSel::Small(1)), Call::NthBack(KSel::Small(1)), Call::Nth(KSel::Max), Call::NthBack(KSel::MaxMinusRem)];
         for t in [0u8, TID_D, TID_A] {
             for n in 0..=5usize {
@@ -226,6 +248,12 @@ impl Property for C17 {
         }
     }
     fn check(&self, case: &C17Case, st: &mut Stats) -> CheckResult {
+        self.check_inner(case, st)
+    }
+}
+
+impl C17 {
+    fn check_inner(&self, case: &C17Case, st: &mut Stats) -> CheckResult {
         let a = &case.a;
         let what = format!("iter:{}:{}{}", kind_of(a.ty), if case.into_iter { "into_iter" } else { "iter" }, if case.rev { ".rev" } else { "" });
         let za = build_checked(a, "subject")?;
